@@ -1,8 +1,10 @@
 //! T2 harness: runs the real crate (built from /repo's working tree) in-process and prints
 //! traces for the Lean `judge`.  One sub-command per stream.
+mod bufstream;
 mod cmp;
 mod fmtstream;
 mod reprs;
+mod tree;
 mod util;
 
 fn main() {
@@ -13,6 +15,7 @@ fn main() {
         "cmp" => cmp::run(rest),
         "cmp-one" => cmp::one(rest),
         "fmt" => fmtstream::run(rest),
+        "buf" => bufstream::run(rest),
         _ => {
             eprintln!("harness: unknown mode {:?}", mode);
             2
